@@ -11,6 +11,23 @@ pub fn canon(r: &Reader) -> Value {
     let d: Value = serde_json::from_str(&r.detailed_json()).unwrap_or(Value::Null);
     let mut v = serde_json::json!({"json": j, "detailed": d, "state": crate::sdk::state_name(r.validation_state())});
     let mut map = Renamer::default();
+    // `Reader.manifests` is a HashMap, so the order in which manifest labels first occur is not
+    // stable between two reads. Fix the renaming order from content: active manifest first, then
+    // the other manifests ordered by their JSON with every id masked.
+    let mut order: Vec<(u8, String, String)> = vec![];
+    let active = v["json"]["active_manifest"].as_str().unwrap_or("").to_string();
+    if let Some(ms) = v["json"]["manifests"].as_object() {
+        for (label, m) in ms {
+            let mut masked = m.clone();
+            let mut mask = Renamer { names: BTreeMap::new(), mask_all: true };
+            normalise(&mut masked, &mut mask);
+            order.push((if *label == active { 0 } else { 1 }, stable(&masked), label.clone()));
+        }
+    }
+    order.sort();
+    for (_, _, label) in order {
+        map.rename(&label);
+    }
     normalise(&mut v, &mut map);
     v
 }
@@ -58,6 +75,7 @@ fn collect_codes(v: &Value, path: &str, out: &mut Vec<String>) {
 #[derive(Default)]
 pub struct Renamer {
     names: BTreeMap<String, String>,
+    mask_all: bool,
 }
 
 impl Renamer {
@@ -83,13 +101,17 @@ impl Renamer {
                         .map(|e| e + plen)
                         .unwrap_or(tail.len());
                     let tok = &tail[..end];
-                    let n = self.names.len();
-                    let name = self
-                        .names
-                        .entry(tok.to_string())
-                        .or_insert_with(|| format!("<id{n}>"))
-                        .clone();
-                    out.push_str(&name);
+                    if self.mask_all {
+                        out.push_str("<id>");
+                    } else {
+                        let n = self.names.len();
+                        let name = self
+                            .names
+                            .entry(tok.to_string())
+                            .or_insert_with(|| format!("<id{n}>"))
+                            .clone();
+                        out.push_str(&name);
+                    }
                     rest = &tail[end..];
                 }
             }
